@@ -10,6 +10,7 @@ CONSTANTS
   MaxRules = 5
   MaxStatus = 6
   MaxRuns = 3
+  MaxReent = 0
   RulesInRun = TRUE
   Export = TRUE
   Variant = "asRequired"
